@@ -26,9 +26,10 @@ Record mquirks := {
   q_ts_hex_e_float         : bool;  (* the int()-path prefixes are those of the source (none before the repair: 0xFE went to float()) *)
   q_ts_bigint_dropped      : bool;  (* the stripped suffix is that of the source (none before the repair: 10n was dropped) *)
   q_ts_test_marker_anywhere: bool;  (* "test_" etc. searched in the whole path: contest_data.ts is "test code" *)
+  q_ts_single_letter_const : bool;  (* const N = 5: a one-letter upper-case name counts as a constant (Python requires two characters) *)
   q_rs_hex_suffix_clash    : bool;  (* the type suffixes tried are those the source tries (before the repair 0x1f32 lost "f32") *)
 }.
-Definition m_ideal : mquirks := Build_mquirks false false false false false false false false.
+Definition m_ideal : mquirks := Build_mquirks false false false false false false false false false.
 
 (* ------------------------------------------------------------------ abstract input *)
 Inductive mlang := MPy | MTs | MRs.
@@ -397,9 +398,13 @@ Definition ts_decl_parent (anc : list tsanc) : option tsanc :=
   | [] => None
   end.
 
-Definition ts_is_const_def (anc : list tsanc) : bool :=
+(* _is_uppercase_constant has no length requirement; the documented convention (and both Python predicates) ask for two characters *)
+Definition ts_const_name (q : mquirks) (name : string) : bool :=
+  ts_upper_name name && (q_ts_single_letter_const q || (2 <=? String.length name)).
+
+Definition ts_is_const_def (q : mquirks) (anc : list tsanc) : bool :=
   match ts_decl_parent anc with
-  | Some p => match ta_ident p with Some id => ts_upper_name id | None => false end
+  | Some p => match ta_ident p with Some id => ts_const_name q id | None => false end
   | None => false
   end.
 
@@ -423,7 +428,7 @@ Definition ts_site_report (q : mquirks) (cfg : mconfig) (is_test : bool) (s : ts
        | Some raw =>
          let v := norm raw in
          if nmem v (allowed cfg) || is_test then []
-         else if ts_is_enum (t_anc s) || ts_is_const_def (t_anc s) then []
+         else if ts_is_enum (t_anc s) || ts_is_const_def q (t_anc s) then []
          else [(t_line s, RNum v)]
        end.
 
